@@ -165,6 +165,21 @@ func c11Class(r string) uint64 {
 	return 3
 }
 
+// c11KeydepTag names, for the histogram, the blocks of the key-dependent stream: how many keys, and whether the keys
+// answer differently when set up alone (the verdict really depended on the key)
+func c11KeydepTag(in *c11In, perkey []string) string {
+	if in.Ops2 != "keydep" {
+		return ""
+	}
+	mixed := "same"
+	for _, p := range perkey {
+		if p != perkey[0] {
+			mixed = "key-dependent"
+		}
+	}
+	return fmt.Sprintf("-keydep-%dkeys-%s", len(perkey), mixed)
+}
+
 func c11RunConf(in *c11In) Result {
 	if c11Slow[in.Dir] {
 		return Result{Term: "(CConf 0 0)", Obs: "skipped: directive already timed out in this run", Class: "conf:skipped", Sig: "conf:skipped"}
@@ -206,9 +221,28 @@ func c11RunConf(in *c11In) Result {
 			sig = fmt.Sprintf("conf:%s:panic:unproved-obligation %s: %s", in.Dir, in.Site, c11DigitsRe.ReplaceAllString(trunc(strings.TrimPrefix(msg, "panic:"), 80), "N"))
 		}
 	}
+	if len(perkey) > 0 && cv < 2 && cx < 2 {
+		// the block against its keys alone: accepted exactly when every key alone is (when every key alone answered)
+		known, every := true, true
+		for _, p := range perkey {
+			if p != cN(0) && p != cN(1) {
+				known = false
+			}
+			if p != cN(0) {
+				every = false
+			}
+		}
+		if known && ((cv == 0) != every || (cx == 0) != every) {
+			ke := "some-key-alone-rejected"
+			if every {
+				ke = "every-key-alone-accepted"
+			}
+			sig = fmt.Sprintf("confkeys:%s:validate=%d:execute=%d:%s", in.Dir, cv, cx, ke)
+		}
+	}
 	if len(perkey) > 0 {
 		return Result{Term: cApp("CConfKeys", cList(perkey), cN(cv), cN(cx)), Obs: map[string]interface{}{"validate": trunc(v, 200), "execute": trunc(x, 200), "perkey": perkey},
-			Sig: sig, Nontrivial: true, Key: text, Class: fmt.Sprintf("confkeys:%s:%d%d", in.Dir, cv, cx)}
+			Sig: sig, Nontrivial: true, Key: text, Class: fmt.Sprintf("confkeys%s:%s:%d%d", c11KeydepTag(in, perkey), in.Dir, cv, cx)}
 	}
 	return Result{Term: cApp("CConf", cN(cv), cN(cx)), Obs: map[string]interface{}{"validate": trunc(v, 200), "execute": trunc(x, 200)},
 		Sig: sig, Nontrivial: cv != cx || cv == 0, Key: text, Class: fmt.Sprintf("conf:%s:%d%d", in.Dir, cv, cx)}
@@ -1273,6 +1307,84 @@ func c11Gen(r *Rand, tier string) []interface{} {
 				keys = multiKeys()
 			}
 			out = append(out, &c11In{Kind: "conf", Dir: d, Keys: keys, Body: sb.String()})
+		}
+	}
+	// server blocks with 2..6 keys of ODD shapes and directive lines whose verdict depends on the key the setup runs
+	// for (controller.Key / ServerBlockKeyIndex / OncePerServerBlock): tls wildcard (number of labels, an existing
+	// wildcard label, a name that qualifies), tls self_signed (the host name as SAN of the generated certificate),
+	// placeholders of the host, bind, `on` (first key only) - and every other directive once.  Each block runs through
+	// the real ValidateAndExecuteDirectives in both modes and carries the outcome of every key alone; the model
+	// (C11_validation_accepts_iff_every_key_accepts / predict_block) says: accepted exactly when every key is, the
+	// first rejected key ends the load, in both modes.
+	oddKeys := []string{"a.b.example.test:0", "example.test:0", "*.example.test:0", "*.*.example.test:0", "a.*.example.test:0", "c.d.e.example.test:0",
+		"localhost:0", "127.0.0.1:0", "[::1]:0", ":0", "http://x.test:0", "y.example.test:0/sub", "http://z.example.test:0/p", "UPPER.Example.Test:0",
+		"a_b.example.test:0", "xn--bcher-kva.example.test:0", "a..b.example.test:0", "dot.example.test.:0", "-a.example.test:0",
+		strings.Repeat("l", 64) + ".example.test:0", "0.0.0.0:0", "a.b.c.d.e.f.g.h.example.test:0", "http://q.test:0/a/b"}
+	keyDepBodies := [][2]string{
+		{"tls", "tls self_signed"}, {"tls", "tls off"}, {"tls", "tls self_signed {\n  wildcard\n}"}, {"tls", "tls {\n  wildcard\n}"},
+		{"tls", "tls self_signed {\n  wildcard\n  alpn h2\n}"}, {"tls", "tls off {\n  wildcard\n}"}, {"tls", "tls {\n  wildcard\n  wildcard\n}"},
+		{"tls", "tls self_signed {\n  wildcard\n}\nredir https://{host}{uri}"}, {"tls", "tls off\nbind 127.0.0.1"},
+		{"bind", "bind 127.0.0.1"}, {"bind", "bind ::1"}, {"bind", "bind"}, {"bind", "bind {host}"},
+		{"redir", "redir https://{host}{uri}"}, {"redir", "redir / https://{host}/x 301"}, {"redir", "redir {\n  if {host} is a.b\n  / /x\n}"}, {"redir", "redir / /"},
+		{"on", "on startup /bin/true"}, {"on", "on shutdown /bin/true &"}, {"on", "on"},
+		{"log", "log / stdout \"{host}\""}, {"header", "header / X-Host {host}"}, {"rewrite", "rewrite / /{host}"},
+		{"proxy", "proxy / 127.0.0.1:9 {\n  header_upstream Host {host}\n}"}, {"basicauth", "basicauth / u p"}, {"root", "root ."},
+		{"limits", "limits 1kb"}, {"timeouts", "timeouts 1s"}, {"index", "index a.html"}, {"gzip", "gzip"}, {"internal", "internal /x"},
+		{"status", "status 404 /x"}, {"templates", "templates"}, {"browse", "browse"}, {"errors", "errors"}, {"ext", "ext .html"},
+		{"mime", "mime .x text/x"}, {"expvar", "expvar"}, {"pprof", "pprof"}, {"push", "push"}, {"request_id", "request_id"},
+		{"websocket", "websocket /ws cat"}, {"markdown", "markdown"}, {"fastcgi", "fastcgi / 127.0.0.1:9 php"}, {"tryfiles", "tryfiles"},
+	}
+	nDraw := 3
+	if tier == "thorough" {
+		nDraw = 30
+	}
+	for _, b := range keyDepBodies {
+		if _, ok := c11Pkg[b[0]]; !ok {
+			continue
+		}
+		for i := 0; i < nDraw; i++ {
+			n := []int{2, 6, 4, 3, 5}[i%5] // 2..6 keys
+			perm := make([]int, len(oddKeys))
+			for k := range perm {
+				perm[k] = k
+			}
+			for k := len(perm) - 1; k > 0; k-- {
+				j := r.Intn(k + 1)
+				perm[k], perm[j] = perm[j], perm[k]
+			}
+			var ks []string
+			for _, k := range perm[:n] {
+				ks = append(ks, oddKeys[k])
+			}
+			out = append(out, &c11In{Kind: "conf", Dir: b[0], Keys: strings.Join(ks, ", "), Body: b[1] + "\n", Ops2: "keydep"})
+		}
+	}
+	// ... and, systematically, the ONE rejected key at every position among accepted ones (and none): `tls self_signed
+	// { wildcard }` accepts a key exactly when its host name has three labels or more, no wildcard label and qualifies
+	goodKeys := []string{"a.b.example.test:0", "c.d.e.example.test:0", "y.example.test:0/sub", "a.b.c.d.e.f.g.h.example.test:0", "xn--bcher-kva.example.test:0", "http://z.example.test:0/p"}
+	badKeys := []string{"example.test:0", "*.example.test:0", "localhost:0", "127.0.0.1:0", ":0", "a.*.example.test:0"}
+	if _, ok := c11Pkg["tls"]; ok {
+		for _, body := range []string{"tls self_signed {\n  wildcard\n}\n", "tls self_signed {\n  alpn h2\n  wildcard\n}\nredir https://{host}{uri}\n"} {
+			for n := 1; n <= 5; n++ {
+				for pos := -1; pos <= n; pos++ {
+					if tier != "thorough" && (n+pos)%2 == 1 && pos >= 0 && n > 2 {
+						continue
+					}
+					off := r.Intn(len(goodKeys))
+					var ks []string
+					for k := 0; k < n; k++ {
+						ks = append(ks, goodKeys[(off+k)%len(goodKeys)])
+					}
+					if pos >= 0 {
+						bad := r.Pick(badKeys)
+						ks = append(ks[:pos], append([]string{bad}, ks[pos:]...)...)
+					}
+					if len(ks) < 2 {
+						continue
+					}
+					out = append(out, &c11In{Kind: "conf", Dir: "tls", Keys: strings.Join(ks, ", "), Body: body, Ops2: "keydep"})
+				}
+			}
 		}
 	}
 	// `root` and every other directive with arguments that name the Casketfile itself, its directory, parents,
